@@ -8,7 +8,7 @@
    notification calls.  [log g x o f] is the global event log of one service life time as
    otelcol/collector.go drives it (Service.Start; Service.Shutdown also after a failed Start);
    [before a b l]: at every occurrence of b in l, a has occurred earlier. *)
-From Verif Require Import Common.Base C10.Model C10.Proofs1 C10.Proofs2 C10.Proofs3 C10.Proofs4 C10.Proofs5.
+From Verif Require Import Common.Base C10.Model C10.Proofs1 C10.Proofs2 C10.Proofs3 C10.Proofs4 C10.Proofs5 C10.Proofs6.
 
 (* the checker that validates the order taken from the implementation is sound *)
 Theorem is_topo_sound : forall ns es o, is_topo ns es o = true ->
@@ -141,6 +141,21 @@ Theorem exactly_one_stop_any_context : forall g x o f c, orders_ok g x o = true 
   (In n (exts x) -> count (XStop n) (fst (collector_run_cx g x o f c)) = 1).
 Proof. exact l_exactly_one_stop_any_context. Qed.
 Print Assumptions exactly_one_stop_any_context.
+
+(* ---- configuration reloads (collector.go Run / reloadConfiguration) ------------------------------
+   For EVERY sequence of configurations (each with its own topology, orders and failing calls):
+   the services that get built are a prefix of the sequence and each of them sees exactly ONE life
+   time [collector_run] — one Start, one Shutdown, also when the reload fails because the retiring
+   service's Shutdown or the new service's Start returns an error.  Hence every theorem above
+   (exactly_once in particular) holds for every generation. *)
+Theorem reload_generations : forall gens,
+  exists k, k <= length gens /\ collector_run_reload gens = map gen_run (firstn k gens).
+Proof. exact l_reload_generations. Qed.
+Print Assumptions reload_generations.
+
+Theorem reload_first_generation : forall g0 rest, exists tl, collector_run_reload (g0 :: rest) = gen_run g0 :: tl.
+Proof. exact l_reload_first. Qed.
+Print Assumptions reload_first_generation.
 
 (* sharedcomponent: for EVERY script of Start / Shutdown calls on one shared Component the inner
    component is started at most once and shut down at most once; once as soon as the script
